@@ -460,6 +460,128 @@ def run_txbulk(ctx):
         "features": dict(feats), "elements_by_outcome": dict(facts)}
 
 
+def seq_from_corpus():
+    """the pairs of corpus/nscache ("lists": two posting lists whose TxToScriptData texts collide under a weak 32-bit digest) as
+    sequences for ONE commander: A then B, and B then A; balances cover the whole sequence"""
+    rows = []
+    for line in corpus_inputs("nscache"):
+        lists = line.get("lists")
+        if not lists or line.get("force"):
+            continue
+        for order in ((0, 1), (1, 0)):
+            seq = [lists[k] for k in order]
+            need = collections.OrderedDict()
+            for ps in seq:
+                for p in ps:
+                    if p["source"] != "world":
+                        need[(p["source"], p["asset"])] = need.get((p["source"], p["asset"]), 0) + int(p["amount"])
+            rows.append({"bal": [[a, x, str(v)] for (a, x), v in need.items() if v],
+                         "requests": [{"postings": ps, "kind": "valid", "meta": {"order": "o-%d" % k}, "ref": "", "ts": None, "tz": 0} for k, ps in enumerate(seq)],
+                         "corpus": True, "family": line.get("family"), "digest": line.get("digest"), "key": line.get("key"),
+                         "texts": [line["texts"][k] for k in order]})
+    return rows
+
+
+def seq_oracle(inp, out):
+    """the property on a sequence of requests submitted to one commander: every request, in turn, on the balances and references the
+    requests before it left"""
+    v = []
+    for path in ("direct", "v2"):
+        res = out.get(path)
+        if not isinstance(res, list) or len(res) != len(inp["requests"]) or any("panic" in r for r in res):
+            v.append(({"class": "panic" if isinstance(res, list) and any("panic" in r for r in res) else "unreadable-answer", "path": path + "-seq"},
+                      "path %s answered %s" % (path, canon(res)[:300])))
+            continue
+        bal, refs = table(inp["bal"]), set()
+        for k, (rq, r) in enumerate(zip(inp["requests"], res)):
+            pos = "first" if k == 0 else "later"
+            accepted = "tx" in r
+            dup = bool(rq.get("ref")) and rq["ref"] in refs
+            trial = collections.defaultdict(int, bal)
+            covered = rq["kind"] == "valid" and replay(rq["postings"], trial)
+            if not accepted:
+                if r.get("newlogs") != 0 or "log" in r:
+                    v.append(({"class": "partial", "path": path + "-seq", "position": pos}, "request %d refused (%s), the store has %s new log(s)" % (k, r.get("detail"), r.get("newlogs"))))
+                if covered and not dup:
+                    v.append(({"class": "spurious-reject", "answer": r.get("err"), "path": path + "-seq", "position": pos},
+                              "request %d of the sequence refused (%s/%s) although its replay on the balances left by the requests before it never runs short" % (
+                                  k, r.get("err"), r.get("detail"))))
+                elif not covered and not dup and rq["kind"] == "valid" and r.get("err") != "insufficient_funds":
+                    v.append(({"class": "wrong-refusal", "answer": r.get("detail"), "path": path + "-seq", "position": pos}, "request %d refused with %s instead of insufficient funds" % (k, r.get("detail"))))
+                continue
+            if rq["kind"] != "valid":
+                v.append(({"class": "invalid-accepted", "kind": rq["kind"], "path": path + "-seq"}, "request %d committed with %s" % (k, rq["kind"])))
+                continue
+            if not covered and not dup:
+                v.append(({"class": "overdraft-accepted", "path": path + "-seq", "position": pos}, "request %d committed although its replay finds a source short" % k))
+            want = want_tx(rq)
+            for sig, what in check_tx(want, r["tx"], "returned transaction", path + "-seq"):
+                v.append((dict(sig, position=pos), "request %d of %d on one commander: %s" % (k, len(res), what)))
+            if r.get("newlogs") != 1 or "log" not in r:
+                v.append(({"class": "log-count", "path": path + "-seq", "position": pos}, "request %d: %s new logs for one committed request" % (k, r.get("newlogs"))))
+            else:
+                for sig, what in check_tx(want, r["log"], "persisted log", path + "-seq"):
+                    v.append((dict(sig, position=pos), "request %d of %d on one commander: %s" % (k, len(res), what)))
+            held = r.get("log") or r["tx"]
+            for s_, d_, a_, as_ in held["postings"]:
+                if a_.lstrip("-").isdigit():
+                    bal[(s_, as_)] -= int(a_)
+                    bal[(d_, as_)] += int(a_)
+            if held["ref"]:
+                refs.add(held["ref"])
+    return v
+
+
+def run_txseq(ctx):
+    """sequences of posting lists on ONE commander (one compilation cache): the stored colliding pairs, then random sequences"""
+    area = "txseq"
+    if ctx.replay_file:
+        rp = json.load(open(ctx.replay_file))
+        inputs = [rp["replay"]["input"]]
+        for k, r in enumerate(inputs):
+            r.setdefault("id", k)
+    else:
+        gen = ctx.path(area + ".gen.jsonl")
+        p = run_harness([area, "gen", "-seed", ctx.seed, "-n", 400 if ctx.quick else 20000, "-tier", ctx.tier, "-out", gen])
+        if p.returncode != 0:
+            ctx.l2_broken.append({"stream": area + "-gen", "detail": (p.stdout + p.stderr)[-2000:]})
+            return
+        cs = seq_from_corpus()
+        for k, r in enumerate(cs):
+            r["id"] = -(k + 1)
+        inputs = cs + read_jsonl(gen)
+    inf, outf = ctx.path(area + ".in.jsonl"), ctx.path(area + ".impl.jsonl")
+    write_jsonl(inf, inputs)
+    p = run_harness([area, "exec", "-in", inf, "-out", outf])
+    if p.returncode != 0:
+        ctx.l2_broken.append({"stream": area + "-exec", "detail": (p.stdout + p.stderr)[-2000:]})
+        return
+    impl = {r["id"]: r["out"] for r in read_jsonl(outf)}
+    st = collections.Counter()
+    digests = collections.Counter()
+    for inp in inputs:
+        out = impl.get(inp["id"])
+        if out is None:
+            continue
+        if "panic" in out:
+            ctx.violation({"property": "C09", "class": "panic", "path": "seq"}, "sequence case panicked: %s" % out["panic"], {"area": area, "input": inp, "observed": out})
+            continue
+        st["sequences"] += 1
+        st["requests"] += len(inp["requests"])
+        texts = out.get("scripts") or []
+        st["sequences_whose_shapes_all_differ"] += 1 if len(set(texts)) == len(texts) else 0
+        st["sequences_repeating_a_shape (a legitimate cache hit)"] += 1 if len(set(texts)) < len(texts) else 0
+        if inp.get("corpus"):
+            digests[inp.get("digest")] += 1
+            stored = [bytes.fromhex(t).decode() for t in inp.get("texts", [])]
+            if stored != texts:
+                st["stored_pairs_whose_texts_TxToScriptData_no_longer_emits (stale: re-run tools/collide/find)"] += 1
+        for sig, what in seq_oracle(inp, out):
+            ctx.violation(dict(sig, property="C09"), what, {"area": area, "input": {k: v for k, v in inp.items() if k != "texts"}, "observed": out})
+    ctx.cov["evaluations"] += st["requests"] * 2
+    ctx.cov["input_distribution"]["txseq"] = dict(st, stored_colliding_pairs_by_digest=dict(sorted(digests.items())))
+
+
 def run(ctx):
     ctx.cov["trusted_base"] = [
         "Lean 4.33 kernel; axioms allowed: propext, Classical.choice, Quot.sound",
@@ -474,7 +596,7 @@ def run(ctx):
     ctx.l1()
     if not (ctx.ensure_driver() and ctx.ensure_harness()):
         return
-    areas = ("txscript", "txbulk")
+    areas = ("txscript", "txbulk", "txseq")
     if ctx.replay_file:   # a replay carries one input of one area
         import json
         areas = (json.load(open(ctx.replay_file)).get("replay", {}).get("area", "txscript"),)
@@ -483,6 +605,8 @@ def run(ctx):
         run_txscript(ctx)
     if "txbulk" in areas:
         run_txbulk(ctx)
+    if "txseq" in areas:
+        run_txseq(ctx)
     ctx.cov["rule"] = ("(a) random posting lists (1..%d postings over a pool of 2-5 or 11-15 accounts incl. world, 1-3 repeating amounts incl. 0 / 2^64±1 / 2^70, "
                        "1-2 assets incl. /precision; chains, fan-in/out, self-transfers; 40%% of the lists draw assets and amounts from ONE near-collision family: "
                        "assets stem+w[:i] or stem/w[:i] and amounts the suffixes/prefixes of one digit word w, 60%% of those with two postings whose "
